@@ -1,0 +1,148 @@
+//go:build verif
+
+package lexer
+
+// Contracts for the lexer (C20 diagnostics half, C03 no-panic), checked by /verif/govc.
+
+//@ spec clen(l) = len(l.characters)
+//@ spec Inv(l) = l != nil && 0 - 1 <= l.position && l.position <= clen(l) + 1 && l.nextPosition == l.position + 1 && 0 <= l.lineStart && (l.position >= 0 ==> l.lineStart <= l.position) && (l.position < 0 ==> l.lineStart == 0) && l.column == l.position - l.lineStart && l.line >= 0 && (0 <= l.position && l.position < clen(l) ==> l.ch == l.characters[l.position]) && (l.position >= clen(l) ==> l.ch == 0)
+//@ spec posOK(l, p) = 0 <= p.Char && p.Char <= clen(l) + 1 && p.Line >= 0 && p.Column == p.Char - p.LineStart && 0 <= p.LineStart && p.LineStart <= p.Char
+//@ spec lexframe(l) = l.characters == old(l.characters) && l.file == old(l.file)
+
+//@ func (*Lexer).readChar
+//@ props C20 C03
+//@ safety
+//@ requires Inv(l)
+//@ modifies l.position, l.nextPosition, l.ch, l.line, l.lineStart, l.column
+//@ ensures[C20.lex.inv] Inv(l) && lexframe(l)
+//@ ensures[C20.lex.step] l.position == ite(old(l.position) > clen(l), old(l.position), old(l.position) + 1) && l.line >= old(l.line)
+//@ ensures[C20.lex.tokstart] l.tokenStartPosition == old(l.tokenStartPosition) && l.prevToken == old(l.prevToken)
+
+//@ func (*Lexer).peekChar
+//@ props C20 C03
+//@ safety
+//@ requires Inv(l)
+//@ modifies nothing
+//@ ensures[C20.lex.peek] result == ite(l.nextPosition >= clen(l), 0, l.characters[l.nextPosition])
+
+//@ func (*Lexer).Position
+//@ props C20
+//@ requires Inv(l)
+//@ modifies nothing
+//@ ensures[C20.lex.pos] result.Char == l.position && result.Line == l.line && result.Column == l.column && result.LineStart == l.lineStart && result.Value == l.ch && result.File == l.file
+
+//@ func (*Lexer).newToken
+//@ props C20
+//@ requires Inv(l)
+//@ modifies nothing
+//@ ensures[C20.lex.newtoken] result.Type == typ && result.Literal == literal && result.StartPosition == l.tokenStartPosition && result.EndPosition.Char == l.position && result.EndPosition.Line == l.line && result.EndPosition.Column == l.column && result.EndPosition.LineStart == l.lineStart
+
+//@ func (*Lexer).skipTabsAndSpaces
+//@ props C20 C03
+//@ safety
+//@ requires Inv(l) && l.position >= 0
+//@ modifies l.position, l.nextPosition, l.ch, l.line, l.lineStart, l.column
+//@ invariant 1: Inv(l) && lexframe(l) && l.position >= old(l.position) && l.tokenStartPosition == old(l.tokenStartPosition) && l.prevToken == old(l.prevToken) && forall(j, old(l.position), l.position, j < clen(l) && (l.characters[j] == ' ' || l.characters[j] == '\t'))
+//@ ensures[C20.lex.inv] Inv(l) && lexframe(l) && l.position >= old(l.position)
+//@ ensures[C20.lex.skip] !(l.ch == ' ' || l.ch == '\t')
+//@ ensures[C20.lex.skip.only] forall(j, old(l.position), l.position, j < clen(l) && (l.characters[j] == ' ' || l.characters[j] == '\t'))
+
+//@ func (*Lexer).skipComment
+//@ props C20 C03
+//@ safety
+//@ requires Inv(l) && l.position >= 0
+//@ modifies l.position, l.nextPosition, l.ch, l.line, l.lineStart, l.column
+//@ invariant 1: Inv(l) && lexframe(l) && l.position >= old(l.position)
+//@ ensures[C20.lex.inv] Inv(l) && lexframe(l) && l.position >= old(l.position)
+
+//@ spec isterm(l, i) = i + 1 < clen(l) && l.characters[i] == '*' && l.characters[i+1] == '/'
+//@ spec noterm(l, a, b) = forall(i, a, b, !isterm(l, i))
+
+// A block comment ends at the first "*/" after its opening "/*": nothing that follows the first terminator is
+// swallowed (only trailing blanks are skipped). The opening's own '*' may or may not count (i starts at s+2).
+//@ func (*Lexer).skipMultiLineComment
+//@ props C20 C03
+//@ safety
+//@ requires Inv(l) && l.position >= 0
+//@ modifies l.position, l.nextPosition, l.ch, l.line, l.lineStart, l.column
+//@ let s = old(l.position)
+//@ invariant 1: Inv(l) && lexframe(l) && l.position >= s && (!found ==> noterm(l, s + 2, l.position)) && (found ==> noterm(l, s + 2, l.position - 2) && (l.position - 1 >= s + 2 && l.position - 1 < clen(l) ==> l.characters[l.position - 1] != '*'))
+//@ ensures[C20.lex.inv] Inv(l) && lexframe(l) && l.position >= old(l.position)
+//@ ensures[C20.cmt.first] forall(i, s + 2, l.position - 1, isterm(l, i) ==> forall(j, i + 2, l.position, l.characters[j] == ' ' || l.characters[j] == '\t'))
+
+//@ func (*Lexer).GetLineText
+//@ props C20 C03
+//@ safety
+//@ requires l != nil
+//@ requires[C20.linetext.pos] 0 <= t.StartPosition.Char && t.StartPosition.Char <= clen(l) + 1 && t.StartPosition.Line >= 0
+//@ requires[C20.linetext.eof] (t.Type != "EOF" ==> t.StartPosition.Char <= clen(l)) && (t.Type == "EOF" && clen(l) > 0 ==> t.StartPosition.Char >= 1)
+//@ modifies nothing
+//@ let c0 = t.StartPosition.Char - ite(t.Type == "EOF", 1, 0)
+//@ invariant 1: 0 <= start && start <= c0 && c0 <= clen(l)
+//@ invariant 2: 0 <= start && start <= c0 && c0 <= end && end <= clen(l)
+//@ ensures[C20.linetext] true
+
+//@ spec lexstep(l) = Inv(l) && lexframe(l) && l.position >= old(l.position) && l.tokenStartPosition == old(l.tokenStartPosition) && l.prevToken == old(l.prevToken)
+//@ spec LEXMOD() = true
+
+//@ func (*Lexer).readIdentifier
+//@ props C20 C03
+//@ safety
+//@ requires Inv(l)
+//@ modifies l.position, l.nextPosition, l.ch, l.line, l.lineStart, l.column
+//@ invariant 1: lexstep(l) && (fresh(runes) || cap(runes) == 0)
+//@ ensures[C20.lex.inv] lexstep(l)
+
+//@ func (*Lexer).readNumber
+//@ props C20 C03
+//@ safety
+//@ requires Inv(l)
+//@ modifies l.position, l.nextPosition, l.ch, l.line, l.lineStart, l.column
+//@ invariant 1: lexstep(l)
+//@ ensures[C20.lex.inv] lexstep(l)
+
+//@ func (*Lexer).readDecimal
+//@ props C20 C03
+//@ safety
+//@ requires Inv(l)
+//@ modifies l.position, l.nextPosition, l.ch, l.line, l.lineStart, l.column
+//@ ensures[C20.lex.inv] lexstep(l)
+//@ ensures[C20.lex.tok] result1 == nil ==> result0.StartPosition == l.tokenStartPosition && result0.EndPosition.Char == l.position && (result0.Type == "INT" || result0.Type == "FLOAT")
+
+//@ func (*Lexer).readEscapeSequence
+//@ props C20 C03
+//@ safety
+//@ requires Inv(l) && count >= 0 && 0 <= base && base <= 16
+//@ modifies l.position, l.nextPosition, l.ch, l.line, l.lineStart, l.column
+//@ invariant 1: lexstep(l) && (fresh(out) || cap(out) == 0)
+//@ ensures[C20.lex.inv] lexstep(l)
+
+//@ func (*Lexer).readString
+//@ props C20 C03
+//@ safety
+//@ requires Inv(l)
+//@ modifies l.position, l.nextPosition, l.ch, l.line, l.lineStart, l.column
+//@ invariant 1: lexstep(l)
+//@ ensures[C20.lex.inv] lexstep(l)
+
+//@ func (*Lexer).readBacktick
+//@ props C20 C03
+//@ safety
+//@ requires Inv(l)
+//@ modifies l.position, l.nextPosition, l.ch, l.line, l.lineStart, l.column
+//@ invariant 1: lexstep(l) && position == old(l.position) + 1
+//@ ensures[C20.lex.inv] lexstep(l)
+
+//@ func (*Lexer).Next
+//@ props C20 C03
+//@ safety
+//@ requires Inv(l) && l.position >= 0
+//@ modifies l.position, l.nextPosition, l.ch, l.line, l.lineStart, l.column, l.tokenStartPosition, l.prevToken
+//@ ensures[C20.lex.inv] Inv(l) && lexframe(l) && l.position >= old(l.position)
+//@ assume[src.nul] clen(l) > 0 ==> l.characters[0] != 0 && (l.prevToken.Type == "EOF" ==> l.position >= 1)
+//@ ensures[C20.tok.pos] posOK(l, result0.StartPosition) && result0.StartPosition.Char <= result0.EndPosition.Char && result0.EndPosition.Char <= clen(l) + 1
+//@ ensures[C20.tok.linetext] (result0.Type != "EOF" ==> result0.StartPosition.Char <= clen(l)) && (result0.Type == "EOF" && clen(l) > 0 ==> result0.StartPosition.Char >= 1)
+//@ ensures[C20.tok.eof] result1 == nil && result0.Type != "EOF" ==> result0.StartPosition.Char < clen(l)
+//@ ensures[C20.cmt] result1 == nil && result0.Type == "/" && 0 <= result0.EndPosition.Char && result0.EndPosition.Char + 1 < clen(l) ==> l.characters[result0.EndPosition.Char + 1] != '*' && l.characters[result0.EndPosition.Char + 1] != '/'
+
+//@ scan[C09.globals.lexer] C09 pkgglobals github.com/risor-io/risor/lexer:
